@@ -19,6 +19,12 @@ def _od():
     od.add_object(C.mkrecord("Record", 0x2200, [C.mkvar("n", 0x2200, 0, C.U8, "ro", default=2),
                                                 C.mkvar("Member", 0x2200, 1, 0x03),
                                                 C.mkvar("Other", 0x2200, 2, 0x07)]))
+    # a second record whose members carry the same names as those of the first one (two axes of one drive), and a
+    # top-level entry named like a member
+    od.add_object(C.mkrecord("Record B", 0x2201, [C.mkvar("n", 0x2201, 0, C.U8, "ro", default=2),
+                                                  C.mkvar("Member", 0x2201, 1, 0x03),
+                                                  C.mkvar("Other", 0x2201, 2, 0x07)]))
+    od.add_object(C.mkvar("Other", 0x2202, 0, 0x07))
     od.add_object(C.mkarray("Array", 0x2300, [C.mkvar("n", 0x2300, 0, C.U8, "ro", default=2),
                                               C.mkvar("Elem", 0x2300, 1, 0x04)]))
     return od
@@ -275,6 +281,35 @@ def record_member(discipline):
     sx.reach("record")
 
 
+def same_names(discipline):
+    """members of two records that share their short names, and a top-level entry named like a member, are
+    different objects: each dotted / plain name reaches its own entry, through one and the same accessor object"""
+    w = World(discipline)
+    sdo = w.remote.sdo
+    va = sx.fresh_int("va", -(1 << 15), (1 << 15) - 1)
+    vb = sx.fresh_int("vb", -(1 << 15), (1 << 15) - 1)
+    oa = sx.fresh_int("oa", 0, 0xFFFFFFFF)
+    ob = sx.fresh_int("ob", 0, 0xFFFFFFFF)
+    ot = sx.fresh_int("ot", 0, 0xFFFFFFFF)
+    sdo["Record.Member"].raw = va
+    sdo["Record B.Member"].raw = vb
+    sdo["Record.Other"].raw = oa
+    sdo["Record B.Other"].raw = ob
+    sdo["Other"].raw = ot
+    tag = "C03/same-names/"
+    for key, exp, where in (("Record.Member", va, (0x2200, 1)), ("Record B.Member", vb, (0x2201, 1)),
+                            ("Record.Other", oa, (0x2200, 2)), ("Record B.Other", ob, (0x2201, 2)),
+                            ("Other", ot, (0x2202, 0))):
+        sx.prove(sdo[key].raw == exp, "read back by name %r" % key, tag + "remote")
+        sx.prove(w.local.sdo[key].raw == exp, "local value of %r" % key, tag + "local")
+        st = w.local.data_store[where[0]][where[1]]
+        n = len(sx.items(st))
+        sx.prove(sx.eq_bytes(st, sx.mkbytes([sx.byte_of(exp, i) for i in range(n)])), "stored bytes of %r" % key,
+                 tag + "stored")
+    sx.prove(sdo[0x2201][1].raw == vb, "by index and sub-index", tag + "by-index")
+    sx.reach("same-names")
+
+
 def stale_responses(k):
     """k stale frames sit in the client's queue (answers of timed-out requests that arrived late): the next
     typed read and write must not be affected by any of them"""
@@ -486,6 +521,7 @@ def jobs(tier):
     for d in disciplines:
         out.append(dict(func="boolean", params=dict(discipline=d)))
         out.append(dict(func="record_member", params=dict(discipline=d)))
+        out.append(dict(func="same_names", params=dict(discipline=d)))
         out.append(dict(func="two_nodes", params=dict(discipline=d)))
     for k in (2, 3):
         out.append(dict(func="concurrent_send", params=dict(k=k), weight=3 ** k))
@@ -531,7 +567,7 @@ META = dict(
                     "NUL", "non-BMP text"],
     assumptions=["at most 2 noise injections per scenario; noise ids outside every predefined connection set"],
     stubs=["queue with delivery hook", "struct", "bytes", "io model", "logging", "Network.send_message replaced by the loopback"],
-    required_reach=["concurrent-send", "after-failed", "shared-od", "slow", "empty-after-other", "numeric-inline", "numeric-deferred", "numeric-interleaved", "access-index", "access-name", "boolean",
+    required_reach=["same-names", "concurrent-send", "after-failed", "shared-od", "slow", "empty-after-other", "numeric-inline", "numeric-deferred", "numeric-interleaved", "access-index", "access-name", "boolean",
                     "real", "text", "blob", "domain-segmented", "record", "two-nodes", "stale-responses"],
     limits=dict(quick=dict(max_decisions=50000), thorough=dict(max_decisions=100000)),
     validate_every=dict(quick=7, thorough=50),
